@@ -1,6 +1,94 @@
-/- stub: property C15 has no model driver yet -/
+import ActixModel.Util
+import ActixModel.Model.Multipart
+/-
+Line-protocol driver for C15.  Case syntax and output syntax: see `harness/src/props/c15.rs`.
+  `b=<hex> ct=mixed|form lim=<n|0> plan=<r|dK>,… [gt=…] [tr=1] | c<hex> p e …`
+Output: one token per consumer-visible event, `@k` = script items pulled from the stream so far.
+-/
 namespace ActixModel.Drv.C15
+open ActixModel.Util ActixModel.Multipart
 
-def run (_line : String) : String := "unimplemented"
+def parseTok (w : String) : Option Tok :=
+  if w == "p" then some .pending
+  else if w == "e" then some .err
+  else if w.startsWith "c" then (bytesOfHex (w.drop 1).toString).map .chunk
+  else none
+
+def parseToks : List String → List Tok → Option (List Tok)
+  | [], acc => some acc.reverse
+  | w :: ws, acc =>
+    match parseTok w with
+    | some t => parseToks ws (t :: acc)
+    | none => none
+
+def parsePlan (w : String) : Option (Option Nat) :=
+  if w == "r" then some none
+  else if w.startsWith "d" then (w.drop 1).toString.toNat?.map some
+  else none
+
+def parsePlans : List String → List (Option Nat) → Option (List (Option Nat))
+  | [], acc => some acc.reverse
+  | w :: ws, acc =>
+    match parsePlan w with
+    | some p => parsePlans ws (p :: acc)
+    | none => none
+
+def insertSorted (x : String × Bytes) : List (String × Bytes) → List (String × Bytes)
+  | [] => [x]
+  | y :: ys => if y.1 < x.1 then y :: insertSorted x ys else x :: y :: ys
+
+/-- stable sort by name (values of one name keep wire order) -/
+def sortHeaders (hs : List (String × Bytes)) : List (String × Bytes) := hs.foldr insertSorted []
+
+def hexD (bs : Bytes) : String := if bs.isEmpty then "-" else hexOfBytes bs
+
+def showErr : Err → String
+  | .incomplete => "Incomplete"
+  | .boundaryMissing => "BoundaryMissing"
+  | .parseHeader => "ParseHeader"
+  | .parseTooLarge => "ParseTooLarge"
+  | .overflow => "Overflow"
+  | .payloadIncomplete => "PayloadIncomplete"
+  | .stream => "Stream"
+  | .cdMissing => "CdMissing"
+  | .cdNameMissing => "CdNameMissing"
+  | .nested => "Nested"
+
+def showEv : Ev → String
+  | .field info =>
+    let hs := sortHeaders (info.headers.map fun h => (stringOfBytes h.1, h.2))
+    "F" ++ (match info.name with | some n => hexD n | none => "~") ++ ";" ++
+      joinWith "," (hs.map fun h => h.1 ++ "=" ++ hexD h.2)
+  | .data bs => "D" ++ hexD bs
+  | .fieldEnd => "N"
+  | .dropped => "X"
+  | .eof => "EOF"
+  | .fail e => "ERR:" ++ showErr e
+  | .hang => "HANG"
+
+/-- consecutive content chunks are one observable: merge them, keeping the counter of the last -/
+def mergeData : List (Ev × Nat) → List (Ev × Nat)
+  | (.data a, _) :: (.data b, k) :: rest => mergeData ((.data (a ++ b), k) :: rest)
+  | x :: rest => x :: mergeData rest
+  | [] => []
+termination_by l => l.length
+
+def run (line : String) : String :=
+  let (head, tail) := match line.splitOn "|" with
+    | [h] => (h, "")
+    | h :: t :: _ => (h, t)
+    | [] => ("", "")
+  let ws := words head
+  match (kv ws "b").bind bytesOfHex, parseToks (words tail) [],
+        parsePlans (((kv ws "plan").getD "r").splitOn ",") [] with
+  | some boundary, some script, some plans =>
+    let form := (kv ws "ct").getD "mixed" == "form"
+    let lim := kvNat ws "lim" 0
+    let limit := if lim == 0 then Consts.mpDefaultBufferLimit else lim
+    let total := script.length
+    let s := Multipart.run Cfg.fixed (fuelFor script) (initSys boundary form limit plans script)
+    let evs := (mergeData s.trace.reverse).map fun (e, left) => showEv e ++ "@" ++ toString (total - left)
+    joinWith " " (if s.finished then evs else evs ++ ["FUEL"])
+  | _, _, _ => "bad-case"
 
 end ActixModel.Drv.C15
